@@ -87,6 +87,11 @@ theorem aligned (h : History) (ts : KVs) (p : Path) (hp : p ≠ [])
     | none => simp [hl] at this
     | some v => simp
 
+example : ∀ ts, timeseriesFromData hist1 = .ok ts → (column ts ["a", "x"]).length = 2 :=
+  fun ts h => (aligned hist1 ts ["a", "x"] (by simp) (by simp)
+    (by simp [hist1, UniqueAlong, KV.Nodup, KV.keys, KV.lookup]) h
+    (by simp [hist1, leafAt, resolve, KV.lookup, Val.isDict])).1
+
 /-- **Round trip, cell by cell.** … the `i`-th entry of the column is the value emitted at the
 `i`-th time, whatever that value is (0, False, "", [] and None included): reading the embedded
 timeseries back cell by cell reproduces the raw data. -/
@@ -119,9 +124,8 @@ example : (timeseriesFromData hist1).toOption.map
 /-! ## the path timeseries -/
 
 /-- **Path timeseries.** Every column of the embedded timeseries appears in the path
-timeseries under its path, with the same list, and the time vector is carried over. (Proved:
-nothing is lost; the converse — no other entries — is checked by the oracle on the
-implementation, not proved here.) -/
+timeseries under its path, with the same list, and the time vector is carried over (nothing is
+lost; `path_timeseries_only_leaves` is the converse). -/
 theorem path_timeseries_reads (emb : KVs) (p : Path) (v : Val) (times : Val)
     (pd : List (Path × Val)) (hpt : pathTimeseries emb = .ok (pd, times))
     (htime : p.head? ≠ some "time") (hr : resolve (.dict emb) p = some v) (hv : v.isDict = false) :
@@ -146,6 +150,53 @@ theorem path_timeseries_reads (emb : KVs) (p : Path) (v : Val) (times : Val)
       have := mem_dictToPaths (k :: rest) [] (.dict (KV.erase "time" emb)) v hr' hv
       rw [dictToPaths.eq_1] at this
       simpa [makePathDict] using this
+
+/-- … and the path timeseries holds nothing else: each of its entries is a leaf of the embedded
+timeseries (other than `time`), read at the entry's path. -/
+theorem path_timeseries_only_leaves (emb : KVs) (times : Val) (pd : List (Path × Val))
+    (hpt : pathTimeseries emb = .ok (pd, times)) (hu : UniqueAllV (.dict emb)) (p : Path) (v : Val)
+    (hm : (p, v) ∈ pd) :
+    resolve (.dict emb) p = some v ∧ v.isDict = false ∧ p.head? ≠ some "time" := by
+  unfold pathTimeseries at hpt
+  cases hl : KV.lookup "time" emb with
+  | none => simp [hl] at hpt
+  | some t =>
+    simp only [hl] at hpt
+    injection hpt with hpt
+    injection hpt with h1 h2
+    subst h1
+    have hu' : UniqueAllV (.dict (KV.erase "time" emb)) := by
+      simp only [UniqueAllV] at hu ⊢
+      refine ⟨KV.nodup_erase _ _ hu.1, ?_⟩
+      have : ∀ (l : KVs), UniqueAllL l → UniqueAllL (KV.erase "time" l) := by
+        intro l
+        induction l with
+        | nil => intro h; simpa [KV.erase] using h
+        | cons kv tl ih =>
+          intro h
+          obtain ⟨k, x⟩ := kv
+          simp only [UniqueAllL] at h
+          by_cases hk : k = "time"
+          · simpa [KV.erase, hk] using ih h.2
+          · have : KV.erase "time" ((k, x) :: tl) = (k, x) :: KV.erase "time" tl := by
+              simp [KV.erase, hk]
+            rw [this]; simp only [UniqueAllL]; exact ⟨h.1, ih h.2⟩
+      exact this emb hu.2
+    have hm' : (p, v) ∈ dictToPaths [] (.dict (KV.erase "time" emb)) := by
+      rw [dictToPaths.eq_1]; exact hm
+    obtain ⟨q, e, hr, hv⟩ := dictToPaths_sound [] _ hu' p v hm'
+    simp only [List.nil_append] at e
+    subst e
+    cases p with
+    | nil => simp [resolve] at hr; subst hr; simp [Val.isDict] at hv
+    | cons k rest =>
+      have hr' : (KV.lookup k (KV.erase "time" emb)).bind (fun c => resolve c rest) = some v := hr
+      have hk : k ≠ "time" := by
+        intro e; subst e
+        rw [KV.lookup_erase_same] at hr'; simp at hr'
+      refine ⟨?_, hv, by simpa using hk⟩
+      show (KV.lookup k emb).bind (fun c => resolve c rest) = some v
+      rw [← KV.lookup_erase_other hk]; exact hr'
 
 example : (pathTimeseriesFromData hist1).toOption.map (fun r => r.1.map (·.1))
     = some [["a", "x"], ["a", "y"], ["b"]] := by simp only [hist1]; eval_model
